@@ -250,6 +250,13 @@ def make_case(rng):
     else:
         family = "G"
         spec, steady, meta = F.family_G(rng)
+    if len(spec["tvars"]) >= 2 and len(spec["tvars"]) % 2 == 0:
+        # the FIRST variable gets a name that contains the second one's name (y_gap before y): look-ups by name must be exact
+        first, second = spec["tvars"][0]["name"], spec["tvars"][1]["name"]
+        new = second + "_q"
+        taken = {q["name"] for g in ("tvars", "mvars", "tshocks", "mshocks", "params", "exog") for q in spec.get(g, [])}
+        if new not in taken:
+            spec, steady, meta = F._apply_names((spec, steady, meta), {first: new})
     stds = {}
     for q in spec["tshocks"] + spec["mshocks"]:
         stds["std_" + q["name"]] = 0.0 if rng.random() < 0.1 else float(np.round(rng.uniform(0.1, 2.0), 3))
@@ -313,6 +320,22 @@ def run_case(c, case):
         got = [n.replace("log(", "").replace(")", "") for n in names.rows]
         if sorted(got) != sorted(want):
             c.violation("get_acov_dimension_names:differ", f"{got} vs declared {want}")
+        # the accessor that reads entries BY NAME must deliver the entries of exactly those rows and columns (names that are
+        # substrings of other names included)
+        try:
+            A = np.asarray(a0[0][0], dtype=float)
+            rows = list(names.rows)
+            for i_, ni in enumerate(rows):
+                j_ = (i_ * 7 + 3) % len(rows)
+                nj = rows[j_]
+                got_ = np.asarray(names.select(A, ((ni,), (nj,))), dtype=float).ravel()
+                c.event("select", "by-name", key=("select", len(rows), any(ni in o and ni != o for o in rows)), nontrivial=len(rows) >= 2)
+                want_ = A[i_, j_]
+                if got_.size != 1 or not ((np.isnan(got_[0]) and np.isnan(want_)) or got_[0] == want_):
+                    c.violation("get_acov_dimension_names:select-returns-another-entry", f"select(({ni!r},), ({nj!r},)) gives {got_.tolist()}, the matrix holds {want_!r} at row {i_}, column {j_} (rows {rows})")
+                    break
+        except Exception as exc:
+            c.violation(f"get_acov_dimension_names:select-raised:{type(exc).__name__}", f"{type(exc).__name__}: {str(exc)[:200]}")
         # metamorphic: scaling all stds by s scales autocovariances by s^2
         s = case["factor"]
         try:
